@@ -69,7 +69,7 @@ func vfNewRR(s string) (mdns.RR, error) {
 	return &mdns.TXT{Txt: []string{s}}, nil
 }
 
-var vfNames = []string{"router.myco", "open.myco", "wpad.myco", "myco.myco", "a.myco", "b.myco", "a.b.myco", "plain"}
+var vfNames = []string{"router.myco", "open.myco", "wpad.myco", "myco.myco", "a.myco", "b.myco", "a.b.myco", "plain", "u.mycology.myco", "u.myco.myco"}
 
 func vfServer(q string) (*Server, [3]bool) {
 	addrResolve, addrFriend, addrMapping := netip.MustParseAddr("fd00::1:1"), netip.MustParseAddr("fd00::2:2"), netip.MustParseAddr("fd00::3:3")
@@ -79,6 +79,7 @@ func vfServer(q string) (*Server, [3]bool) {
 	other := "zz.myco"
 	cfg.Resolve[other] = netip.MustParseAddr("fd00::9:1")
 	cfg.FriendsByName["zz"] = config.Friend{Name: "zz", IP: netip.MustParseAddr("fd00::9:2")}
+	cfg.FriendsByName["u"] = config.Friend{Name: "u", IP: netip.MustParseAddr("fd00::9:4")} // must not answer for u.<something>.myco
 	maps.m[other] = netip.MustParseAddr("fd00::9:3")
 	var has [3]bool
 	if vf.Bool() {
